@@ -107,7 +107,7 @@ Definition linearizable (init : regs) (h : list event) (final : regs) : bool :=
 
 (* ---- the per-state predicate of the finite-configuration theorems *)
 Definition good_final (cf : config) (s : gstate) : bool :=
-  linearizable (cfg_disk cf) (rev (g_hist s)) (disk (g_core s)) && final_agree s.
+  linearizable (real_files (cfg_disk cf)) (rev (g_hist s)) (real_files (disk (g_core s))) && final_agree s.
 
 (* every reachable state: not stuck unless everything has returned and finished; and when it has,
    and no in-flight entry was ever unloaded (ghost g_k = 0), the outcome is good *)
@@ -200,6 +200,12 @@ Definition U2112 : list config :=
 Definition U31e : list config :=
   flat_map (fun a => flat_map (fun b => map (fun c => mkCfg 6 [(0, cA); (1, cB)] [[a]; [b]; [c]]) [OGet 0; OGet 1]) [OGet 0; OGet 1]) [OGet 0; OGet 1].
 
+(* 2 client threads x 1 operation on files {100,101}, which live in a subdirectory that does not exist yet: the
+   first writes create it (makedirs is a step of its own then) *)
+Definition opsD (u : content) : list op := [OGet 100; OGet 101; OUpd 100 u; OUpd 101 u; OUnl 100; OUnl 101].
+Definition U21d : list config :=
+  flat_map (fun a => map (fun b => mkCfg BIG [] [[a]; [b]]) (opsD u2)) (opsD u1).
+
 (* the configuration class of the known defect: two different threads, same file, one may have an entry in
    flight (get or update) while the other unloads it (unload_file, or update_file against a get) *)
 Definition op_file (o : op) : file := match o with OGet f | OUpd f _ | OUnl f => f end.
@@ -223,7 +229,7 @@ Definition conf_pred (fl : flags) (cf : config) : gstate -> bool :=
   if racy cf && negb (fl_busy_guard fl) then state_ok fl cf else state_ok_strict fl cf.
 
 (* the code before the repair (update_file / unload_file without the busy guard) *)
-Definition old_flags : flags := mkFlags false true false true false true true true true false.
+Definition old_flags : flags := mkFlags false true false true false true true true true true false false.
 
 Definition check_universe (fl : flags) (U : list config) (fuel : nat) : bool :=
   forallb (fun cf => check_conf fl cf (conf_pred fl cf) fuel) U.
@@ -237,7 +243,7 @@ Definition C18_full_statement (fl : flags) (cf : config) : Prop :=
     (forall t s', step fl (cfg_max cf) s t = Some s' -> (weight s' < weight s)%nat) /\
     (enabled fl (cfg_max cf) s = [] ->
        quiescent s = true /\
-       lin_spec (cfg_disk cf) (rev (g_hist s)) (disk (g_core s)) /\ final_agree s = true).
+       lin_spec (real_files (cfg_disk cf)) (rev (g_hist s)) (real_files (disk (g_core s))) /\ final_agree s = true).
 
 (* the same, except that nothing is claimed about the outcome of runs in which a client unloaded an in-flight entry *)
 Definition C18_outside_K_statement (fl : flags) (cf : config) : Prop :=
@@ -245,7 +251,7 @@ Definition C18_outside_K_statement (fl : flags) (cf : config) : Prop :=
     (forall t s', step fl (cfg_max cf) s t = Some s' -> (weight s' < weight s)%nat) /\
     (enabled fl (cfg_max cf) s = [] ->
        quiescent s = true /\
-       (g_k s = 0 -> lin_spec (cfg_disk cf) (rev (g_hist s)) (disk (g_core s)) /\ final_agree s = true)).
+       (g_k s = 0 -> lin_spec (real_files (cfg_disk cf)) (rev (g_hist s)) (real_files (disk (g_core s))) /\ final_agree s = true)).
 
 (* chunks of the universes (so that the reflective checks build in parallel) *)
 Definition U22a := firstn 27 U22.
